@@ -13,7 +13,7 @@ pk=$(git -C $wt diff --name-only | xargs -n1 dirname | sort -u | sed 's|^|./|' |
 ( cd $wt && GOFLAGS=-mod=mod GOPROXY=off go build ./... && GOFLAGS=-mod=mod GOPROXY=off go test -vet=off -count=1 $pk 2>&1 | grep -E "^(--- FAIL|FAIL|ok)" | grep -v -E "TestJoin|TestNewClient|TestStatsd" | tr '\n' ' ' ; echo )
 for c in $checks; do
   lc=$(echo $c | tr A-Z a-z)
-  out=$(cd /verif && VERIF_REPO=$wt VERIF_BUILD=$wt-build VERIF_ONLY=$lc ./check $c --tier $tier 2>&1)
+  out=$(cd /verif && VERIF_EVIDENCE_DIR=$wt-build/evidence VERIF_REPLAY_DIR=$wt-build/replays VERIF_REPO=$wt VERIF_BUILD=$wt-build VERIF_ONLY=$lc ./check $c --tier $tier 2>&1)
   echo "== $c: $(echo "$out" | grep -E '^RESULT|BUILD-FAILED|HARNESS' )"
   echo "$out" | grep -E "^  signature" | head -4 | cut -c1-400
 done
